@@ -10,9 +10,15 @@ use crate::sem::{self, SemCase};
 use serde_json::{json, Value};
 use std::sync::OnceLock;
 
-pub const DECL: &str = "unsigned char a, b, c, r, sav; short s; unsigned char arr[4];\nchar *const M1 = 0x3a;\nchar *const M2 = 0x3b;\nchar *const R1 = 0x3c;\nchar *const R2 = 0x3d;\nchar *const R3 = 0x3e;\nchar *const RA = 0x280;\nvoid f() { c = c + 1; }\n";
+pub const DECL: &str = "unsigned char a, b, c, r, sav; short s; unsigned char arr[4];\nchar *const M1 = 0x3a;\nchar *const M2 = 0x3b;\nchar *const R1 = 0x3c;\nchar *const R2 = 0x3d;\nchar *const R3 = 0x3e;\nchar *const RA = 0x280;\nchar *const HW = 0x30;\nvoid f() { c = c + 1; }\n";
 
 pub const REGS: [(&str, u16); 6] = [("M1", 0x3a), ("M2", 0x3b), ("R1", 0x3c), ("R2", 0x3d), ("R3", 0x3e), ("RA", 0x280)];
+
+/// HW[0..8] is a block of registers reached with a subscript: every access to it is logged too
+pub const HW_RANGE: std::ops::Range<u16> = 0x30..0x38;
+fn is_logged(a: u16) -> bool {
+    REGS.iter().any(|r| r.1 == a) || HW_RANGE.contains(&a)
+}
 
 pub const CONTEXT: [&str; 16] = [
     "", "a = 0;", "a = b;", "X = a;", "a++;", "X++;", "Y--;", "a += b;", "arr[X] = a;", "a = arr[X];", "if (a) b = 1;", "if (X == 0) a = 2;", "s++;", "f();", "r = a == b;", "a <<= 1;",
@@ -156,8 +162,37 @@ pub fn cases(tier: Tier) -> Vec<TCase> {
         "@fn void hn() { load(*R1); strobe(R3); } @main hn(); load(*R1); hn();",
         "@fn inline void hi2() { if (a) load(*R1); else strobe(R3); } @main hi2(); a = 0; hi2();",
         "@fn inline void h1() { load(*R1); } inline void h2() { h1(); store(*R2); h1(); } @main h2(); h2();",
+        // the operand of an explicit access is the one the source names: subscripts with side effects
+        // or that need a register to be computed
+        "load(HW[X++]); store(*R2);",
+        "load(HW[X]); X++; store(*R2);",
+        "load(HW[X--]); store(HW[X]);",
+        "X = 1; load(HW[X++]); load(HW[X++]); store(HW[X]);",
+        "load(HW[X++]); X++; load(HW[X]);",
+        "Y = 1; load(HW[Y++]); store(HW[Y]);",
+        "Y = 1; store(HW[Y++]); store(HW[Y--]); store(HW[Y]);",
+        "load(HW[a]); store(*R2);",
+        "a = 3; load(HW[a]); store(HW[a]);",
+        "a = 2; load(HW[a++]); store(HW[a]);",
+        "Y = 0; a = 3; load(HW[a]); store(HW[Y]);",
+        "X = 0; b = 2; store(HW[b]); load(HW[X]);",
+        "load(HW[1]); store(HW[2]); load(HW[0]);",
+        "X = 1; load(HW[X]); load(HW[X]); a = 0; load(HW[X]);",
+        "@fn inline void hx() { load(HW[X++]); store(*R2); } @main X = 0; hx(); hx();",
     ] {
         v.push(TCase::Trace(body.to_string()));
+    }
+    // an explicit load repeated after something that moved the flags away from A, then every shape of
+    // following code the optimiser looks ahead into (a store, a store then an indexed load, a compare...)
+    for first in ["load(*R1);", "load(a);", "load(5);", "load(*RA);"] {
+        for mid in ["X++;", "X = 2;", "Y--;", "b++;", "Y = 1;"] {
+            for tail in [
+                "store(*R2);", "store(*R2); Y = arr[X];", "store(*R2); X = arr[Y];", "store(*R2); b = arr[X];", "store(b); Y = arr[X];", "strobe(R3); Y = arr[X];", "X = arr[Y];", "b = arr[X];", "if (a) b = 1;", "store(*R2); X = 1;",
+                "store(*R2); b = 2;", "if (a == 3) b = 1;",
+            ] {
+                v.push(TCase::Trace(format!("{} {} {} {}", first, mid, first, tail)));
+            }
+        }
     }
     v
 }
@@ -368,6 +403,9 @@ fn run_trace(body: &str) -> CaseOutcome {
             }
         };
         let mut m = sem::machine_for(&case, &p);
+        let mut la = sem::logged_addrs(&case);
+        la.extend(HW_RANGE);
+        m.set_logged(&la);
         // execution log on inline assembly lines
         let mut asm_addrs: Vec<(u16, String)> = Vec::new();
         for f in &p.img.funcs {
@@ -400,7 +438,7 @@ fn run_trace(body: &str) -> CaseOutcome {
                 .cpu
                 .log
                 .iter()
-                .filter(|a| a.kind == AccKind::Exec || REGS.iter().any(|r| r.1 == a.addr))
+                .filter(|a| a.kind == AccKind::Exec || is_logged(a.addr))
                 .map(|a| match a.kind {
                     AccKind::Read => (0u8, a.addr),
                     AccKind::Write => (1u8, a.addr),
@@ -418,8 +456,8 @@ fn run_trace(body: &str) -> CaseOutcome {
             let mut want: Vec<(u8, u16)> = Vec::new();
             for e in &ev {
                 match e {
-                    Event::Load(a) if REGS.iter().any(|r| r.1 == *a) => want.push((0, *a)),
-                    Event::Store(a) if REGS.iter().any(|r| r.1 == *a) => want.push((1, *a)),
+                    Event::Load(a) if is_logged(*a) => want.push((0, *a)),
+                    Event::Store(a) if is_logged(*a) => want.push((1, *a)),
                     Event::Strobe(a) => want.push((1, *a)),
                     Event::Asm(t) => {
                         want.push((2, 0));
